@@ -550,15 +550,15 @@ class PolygonTensor(PolytopeTensor):
                 if np.all(e.dependent_values):
                     # the segment(s) lie in the supporting plane(s): no isolated points of intersection
                     return []
-                if isinstance(other, SegmentTensor):
-                    other = cast(SegmentTensor, other[~e.dependent_values])
-                result = cast(PlaneTensor, self._plane[~e.dependent_values]).meet(other._line)
-                return list(
-                    result[
-                        PolygonCollection.from_tensor(self[~e.dependent_values]).contains(result)
-                        & other.contains(result)
-                    ]
-                )
+                # keep the pairs whose segment does not lie in the supporting plane (either operand may be a single object)
+                keep = ~e.dependent_values
+                if other.free_indices > 1:
+                    other = cast(SegmentTensor, other[keep])
+                polygons, planes = self, self._plane
+                if planes.free_indices > 0:
+                    polygons, planes = PolygonCollection.from_tensor(self[keep]), cast(PlaneTensor, planes[keep])
+                result = planes.meet(other._line)
+                return list(result[polygons.contains(result) & other.contains(result)])
             else:
                 ind = self.contains(result) & other.contains(result)
                 if result.free_indices > 0:
@@ -571,10 +571,15 @@ class PolygonTensor(PolytopeTensor):
             if np.all(e.dependent_values):
                 # the line(s) lie in the supporting plane(s): no isolated points of intersection
                 return []
+            # keep the pairs whose line does not lie in the supporting plane (either operand may be a single object)
+            keep = ~e.dependent_values
             if other.free_indices > 0:
-                other = other[~e.dependent_values]
-            result = cast(PlaneTensor, self._plane[~e.dependent_values]).meet(other)
-            return list(result[PolygonCollection.from_tensor(self[~e.dependent_values]).contains(result)])
+                other = other[keep]
+            polygons, planes = self, self._plane
+            if planes.free_indices > 0:
+                polygons, planes = PolygonCollection.from_tensor(self[keep]), cast(PlaneTensor, planes[keep])
+            result = planes.meet(other)
+            return list(result[polygons.contains(result)])
         else:
             ind = self.contains(result)
             if result.free_indices > 0:
